@@ -5,7 +5,7 @@ PROPS = {
     "C19": {
         "theorems": ["SV.Props.C19.sharded_history_is_one_map", "SV.Props.C19.sharded_range_visits_the_union_once", "SV.Props.C19.id_in_range", "SV.Props.C19.id_depends_on_suffix_only", "SV.Props.C19.id_onto", "SV.Props.C19.mask_segments_sound", "SV.Props.C19.sharded_put_then_read", "SV.Props.C19.sharded_remove_then_read", "SV.Props.C19.sharded_invariant", "SV.Props.C19.sharded_range_is_union"],
         "modules": ["SV.Props.C19"],
-        "runs": [{"component": "shard", "thorough_seeds": 2}],
+        "runs": [{"component": "shard", "thorough_seeds": 2}, {"component": "persist", "thorough_seeds": 1, "history_filter": "!shards=0"}],
         "rule": "histories of masks/id/onto/maskseg operations; distinct = distinct (operation kind, output) pairs observed on the implementation; "
                 "maskseg scans EVERY shard count of its interval on the float code and compares the run-length encoding with the model's (sound by mask_segments_sound)",
         "exhaustive": "quick: all n<=64 (masks, onto, all 1-byte keys stride<=7, sampled 2-byte keys), masks of every n in [2,2^22] and +-2048 around 2^23..2^31; "
